@@ -31,6 +31,8 @@ def plan(tier, seed):
     jobs.append(ch("C02", H, "h_levels_with_nulls", t, ["writer.make_definitions (pages with NULLs)"]))
     jobs.append(dict(name="C02-lemma-dict-index-framing", kind="pyfunc", timeout=300,
                      payload=dict(func="vf.pyshim.lemmas:dict_index_framing")))
+    jobs.append(ch("C02", "vf/pyshim/h_c17.py", "h_time_annotation", t, ["writer.find_type (timestamp branch)",
+                                                                        "writer.make_metadata"]))
     # the integers stored for timestamp columns denote the instants of the frame, for every unit and both `times` modes
     jobs.append(dict(name="C02-lemma-time-roundtrip", kind="pyfunc", timeout=400,
                      payload=dict(func="vf.pyshim.lemma_time:time_roundtrip")))
